@@ -716,8 +716,12 @@ func TestC20_SharedConfig(t *testing.T) {
 				defer done.Done()
 				start.Wait()
 				for j := 0; j < rotations; j++ {
-					// rotation keeps every earlier key: tickets issued before stay valid
+					// half of the cases keep every earlier key (the list grows), the others rotate the usual way:
+					// [new, previous], a list of constant length
 					keys = append([][32]byte{{2, byte(cn), byte(j)}}, keys...)
+					if cn%2 == 0 && len(keys) > 2 {
+						keys = keys[:2]
+					}
 					sc.SetSessionTicketKeys(keys)
 					runtime.Gosched()
 				}
